@@ -9,6 +9,8 @@
 (*   tuple_struct xs | tuple_variant variant xs | map kv (<<key, value>>)  *)
 (*   struct fields (<<name, value>>) | struct_variant variant fields       *)
 (*   fail msg   (a value whose own Serialize implementation fails)         *)
+(*   hr x y     (a value that serializes as x for human-readable formats   *)
+(*              and as y for compact ones: Value, like JSON, is the former) *)
 (***************************************************************************)
 EXTENDS Values
 
@@ -19,7 +21,10 @@ IntKinds == {"i8", "i16", "i32", "i64", "i128", "u8", "u16", "u32", "u64", "u128
 SeqKinds == {"seq", "tuple", "tuple_struct"}
 
 \* a map key must serialize to a string
-KeyOf(t) == IF t.k = "str" THEN [ok |-> TRUE, cs |-> t.cs] ELSE [ok |-> FALSE]
+RECURSIVE KeyOf(_)
+KeyOf(t) == IF t.k = "str" THEN [ok |-> TRUE, cs |-> t.cs]
+            ELSE IF t.k = "hr" THEN KeyOf(t.x)                 \* the key serializer is human-readable too
+            ELSE [ok |-> FALSE]
 
 RECURSIVE Image(_), ImageSeq(_, _, _), ImageFields(_, _, _), ImageMap(_, _, _)
 ImageSeq(xs, i, acc) == IF i > Len(xs) THEN SOk(VVec(acc))
@@ -49,15 +54,16 @@ Image(t) ==
     [] t.k = "struct" -> ImageFields(t.fields, 1, <<>>)
     [] t.k = "struct_variant" -> Tag(t.variant, ImageFields(t.fields, 1, <<>>))
     [] t.k = "fail" -> SErr
+    [] t.k = "hr" -> Image(t.x)
 
 \* independent statement of WHEN serialization fails: exactly when some sub-term cannot be represented
 RECURSIVE Bad(_)
 Bad(t) ==
   CASE t.k = "fail" -> TRUE
     [] t.k \in IntKinds -> ~IntInRange(t.n)
-    [] t.k \in {"some", "newtype_struct", "newtype_variant"} -> Bad(t.x)
+    [] t.k \in {"some", "newtype_struct", "newtype_variant", "hr"} -> Bad(t.x)
     [] t.k \in SeqKinds \cup {"tuple_variant"} -> \E i \in 1..Len(t.xs) : Bad(t.xs[i])
-    [] t.k = "map" -> \E i \in 1..Len(t.kv) : t.kv[i][1].k # "str" \/ Bad(t.kv[i][2])
+    [] t.k = "map" -> \E i \in 1..Len(t.kv) : ~KeyOf(t.kv[i][1]).ok \/ Bad(t.kv[i][2])
     [] t.k \in {"struct", "struct_variant"} -> \E i \in 1..Len(t.fields) : Bad(t.fields[i][2])
     [] OTHER -> FALSE
 
@@ -66,9 +72,9 @@ RECURSIVE JsonRep(_)
 JsonRep(t) ==
   CASE t.k \in IntKinds -> ZInRange(t.n, ZNeg(ZPow2(63)), ZSub(ZPow2(64), ZOne))
     [] t.k \in {"f32", "f64"} -> t.f.c = "fin"
-    [] t.k \in {"some", "newtype_struct", "newtype_variant"} -> JsonRep(t.x)
+    [] t.k \in {"some", "newtype_struct", "newtype_variant", "hr"} -> JsonRep(t.x)
     [] t.k \in SeqKinds \cup {"tuple_variant"} -> \A i \in 1..Len(t.xs) : JsonRep(t.xs[i])
-    [] t.k = "map" -> \A i \in 1..Len(t.kv) : t.kv[i][1].k = "str" /\ JsonRep(t.kv[i][2])
+    [] t.k = "map" -> \A i \in 1..Len(t.kv) : KeyOf(t.kv[i][1]).ok /\ JsonRep(t.kv[i][2])
     [] t.k \in {"struct", "struct_variant"} -> \A i \in 1..Len(t.fields) : JsonRep(t.fields[i][2])
     [] t.k = "fail" -> FALSE
     [] OTHER -> TRUE
